@@ -4,7 +4,7 @@
 (* what the REAL recovery returned (folded with the real merge, and as the     *)
 (* state of a real node after apply_recovered_state, once and twice).          *)
 (* Expected: per key, the merge (CrdtOps!Merge) of every update placed.        *)
-EXTENDS CrdtJson, Json, IOUtils, TLC, Sequences, FiniteSets
+EXTENDS CrdtJson, Json, IOUtils, TLC, Sequences, FiniteSets, SequencesExt
 Rec == ndJsonDeserialize(IOEnv.TRACE)
 VARIABLE l
 
@@ -21,8 +21,18 @@ Matches(c, ids, got) ==
   /\ \A p \in Range(got) : JObs(p[2]) = Obs(Fold(c, p[1], ids, None))
 ObjIds(c) == Range(c.ckpt) \cup Range(c.seg1) \cup Range(c.seg2)
 AllIds(c) == ObjIds(c) \cup Range(c.wal)
-Verdict(c) ==
+(* a recovered state far larger than any mailbox bound, applied to a real node: one LWW key rewritten n times (c.hot =  *)
+(* <<time, replica, value>> per write, all plain sets, so their merge is the write with the greatest stamp) plus 200      *)
+(* bystanders                                                                                                             *)
+Newer(a, b) == IF a[1] > b[1] \/ (a[1] = b[1] /\ a[2] > b[2]) THEN a ELSE b
+BigVerdict(c) ==
   IF c.err # "" THEN "recovery failed: " \o c.err
+  ELSE IF c.node_hot # FoldLeft(Newer, <<0, 0, "">>, c.hot) THEN "after start-up the node does not hold the newest persisted write of a key (part of a large recovered state was dropped on the way to the shards)"
+  ELSE IF c.node_keys # c.bystanders + 1 THEN "after start-up the node lacks keys that recovery returned"
+  ELSE "ok"
+Verdict(c) ==
+  IF c.t = "bignode" THEN BigVerdict(c)
+  ELSE IF c.err # "" THEN "recovery failed: " \o c.err
   ELSE IF ~Matches(c, ObjIds(c), c.fold) THEN "recover() is not the merge of checkpoint and segments"
   ELSE IF ~Matches(c, AllIds(c), c.fold_wal) THEN "recover_with_wal() is not the merge of everything persisted"
   ELSE IF "corrupt_read" \in DOMAIN c /\ c.corrupt_read.ok /\ ~Matches(c, ObjIds(c), c.corrupt_read.fold)
